@@ -13,7 +13,7 @@ MAX_BYTES_PER_USER = 300            # keeps every interactive_t.text far away fr
 class C12(Prop):
     id = "C12"
     title = "Buffered commands are served fairly: one per user per cycle, nobody starves"
-    lean_modules = ["NV.C12.Props", "NV.C12.Witness"]
+    lean_modules = ["NV.C12.Props", "NV.C12.Witness", "NV.C12.Trace"]
     lean_modules_ = None
     theorems = [
         "NV.C12.flag_bits",
@@ -37,6 +37,9 @@ class C12(Prop):
         "NV.C12.cmdLoop_complete",
         "NV.C12.cmdLoop_serves",
         "NV.C12.getchar_typeahead_repaired",
+        "NV.C12.judgeStruct_events",
+        "NV.C12.judgeEfun_events",
+        "NV.C12.judgeEv_events_eq_data",
     ]
     witness_theorems = []
     consts = [("hasCmdTurn", "HAS_CMD_TURN"), ("cmdInBuf", "CMD_IN_BUF"), ("singleChar", "SINGLE_CHAR"),
